@@ -151,6 +151,14 @@ def walk_fails(expr, root, typed):
                     elif typed:
                         return True
                     # generic 'items' is optional in all four alternatives
+                elif k == "meta" and n == "kid":
+                    if not isinstance(o, G.MNode):
+                        return True
+                    for n2 in ("child", "lazy"):
+                        if n2 in o.traits():
+                            v = o.get(n2)
+                            if v is not G.UNSET and v is not None:
+                                nxt.append(v)
                 elif k in ("meta", "any"):
                     if not isinstance(o, G.MNode):
                         return True
@@ -262,6 +270,17 @@ class Prop:
         if x < 0.25:
             term = [{"k": "desync_remove", "h": c.randrange(nh), "pick": c.randrange(1000),
                      "poison": c.random() < 0.3}]
+            if c.random() < 0.4:
+                # the registration whose removal will fail matches SEVERAL observables on one
+                # object ('*' or '+tag') in one branch and walks a link in the other: the
+                # removal has unhooked a whole object by the time it fails
+                T_ = True
+                hh = handlers[term[0]["h"] % nh]
+                # ('+kid' yields both object links of a node, hence several objects; '+tag'
+                # and '*' yield several traits of each)
+                hh["expr"] = [[["meta", "kid", c.random() < 0.7],
+                               c.choice([["meta", "tag", T_], ["any", None, T_]])]]
+                hh["form"] = "text"
         elif x < 0.6:
             for _ in range(c.randint(1, 3)):
                 term.append(c.choice([{"k": "drop_owner", "h": c.randrange(nh)},
@@ -722,6 +741,12 @@ class Prop:
                     if isinstance(o, G.MNode) and step[0] == "t" and step[1] in ("child", "lazy") \
                             and o.full:
                         slots.append((o, step[1]))
+                    if isinstance(o, G.MNode) and step[0] == "meta" and step[1] == "kid" and o.full:
+                        slots.extend([(o, "child"), (o, "lazy")])
+                        for n2 in ("child", "lazy"):
+                            v = o.get(n2)
+                            if v is not G.UNSET and v is not None:
+                                nxt.append(v)
                     if isinstance(o, G.MNode) and step[0] in ("t", "opt") and step[1] in o.traits():
                         v = o.get(step[1])
                         if v is not G.UNSET and v is not None and not isinstance(v, (int, str)):
